@@ -17,7 +17,7 @@ pub fn spec(tier: Tier) -> RunSpec {
         8,
         "section histories (real rws binary, N in {1,2,4,8} workers): sequences of 1..300 connections drawn from valid GET/HEAD/POST requests, every known fault-provoking request class (target without slash, junk Content-Length, \
 ':abc/' authority, suffix range larger than the file, binary form bodies, thousands of header lines, query-first target), generated G-REQ mutants, connect-and-close, connect-and-RST (SO_LINGER 0), half a request then close / RST, \
-a full request then RST without reading, stall then close, idle connections held across later operations, and queued variants performed while the server is SIGSTOPped (the acceptor finds dead connections in its backlog). \
+a full request then RST without reading, stall then close, idle connections held across later operations, quiet periods without any client activity (up to 40 ms inside generated histories; section quiet-periods: 6.5 s quick, up to 61 s thorough), and queued variants performed while the server is SIGSTOPped (the acceptor finds dead connections in its backlog). \
 Invariant after the history: the process is running, all worker threads 0..N-1 exist in /proc/<pid>/task, a valid probe is answered 200 with the right body, and with N-1 idle connections pinning N-1 workers a request on an N-th connection is answered. \
 section transport-faults (in-process): Server::process on a mock transport with read error, write error at byte k, Ok(0), flush error must return (Ok or Err) without panicking. \
 section pool-under-failing-jobs (shuttle engine /verif/sched; evaluations there are schedules): pool sizes 1..8 with task lists that contain panicking jobs, followed by full-width rendezvous groups - a panicking or blocking job must never remove a worker. \
@@ -50,6 +50,8 @@ pub enum Op {
     QueuedClose(u8),
     QueuedReset(u8),
     QueuedRequests(u8),
+    /// no client activity for that many milliseconds
+    Quiet(u16),
 }
 
 #[derive(Clone, Debug, Serialize, Deserialize)]
@@ -99,6 +101,7 @@ fn op_strategy() -> impl Strategy<Value = Op> {
         1 => (1u8..6).prop_map(Op::QueuedClose),
         2 => (1u8..6).prop_map(Op::QueuedReset),
         1 => (1u8..12).prop_map(Op::QueuedRequests),
+        1 => (1u16..40).prop_map(Op::Quiet),
     ]
 }
 
@@ -109,7 +112,7 @@ fn history_strategy(max_ops: usize) -> impl Strategy<Value = History> {
 
 const LIMIT: Duration = Duration::from_secs(3);
 
-fn is_fault(op: &Op) -> bool { !matches!(op, Op::Valid(_)) }
+fn is_fault(op: &Op) -> bool { !matches!(op, Op::Valid(_) | Op::Quiet(_)) }
 
 /// One request on a fresh connection. If nothing arrives within LIMIT while other client connections are open, those are closed and the
 /// same connection is read again: a response that arrives only then was waiting behind them (second value true) - a causal signal, not a timer.
@@ -170,6 +173,7 @@ pub fn run_history(ctx: &Ctx, docroot: &std::path::Path, h: &History) -> Verdict
             }
             Op::FullThenReset(k) => { if let Ok(mut s) = srv.connect() { let _ = s.write_all(&valid_request(*k)); net::reset(s); } }
             Op::StallThenClose(ms) => { if let Ok(s) = srv.connect() { std::thread::sleep(Duration::from_millis(*ms as u64)); drop(s); } }
+            Op::Quiet(ms) => { std::thread::sleep(Duration::from_millis(*ms as u64)); }
             Op::IdleHold(k) => { for _ in 0..*k { if held.len() < 16 { if let Ok(s) = srv.connect() { held.push(s); } } } }
             Op::QueuedClose(k) | Op::QueuedReset(k) | Op::QueuedRequests(k) => {
                 if matches!(op, Op::QueuedRequests(_)) && held.len() as u32 >= n { held.clear(); }
@@ -263,6 +267,20 @@ pub fn run(ctx: &Ctx) {
     let max_ops = if ctx.quick() { 160 } else { 300 };
     *ctx.max_shrink_iters.borrow_mut() = 24;
     ctx.prop("histories", ctx.share(ctx.scale(480, 6000)), history_strategy(max_ops), |h| run_history(ctx, &root, h));
+    // a server left alone for a while must still have all its workers: one long quiet period per native worker (quick: 6.5 s on worker 0; thorough: 6.5 / 16 / 31 / 61 s)
+    // - a worker that gives up waiting for connections after some interval only shows after a pause longer than that
+    ctx.set_section("quiet-periods");
+    let long: Option<u16> = if ctx.tier == Tier::Thorough { [6500u16, 16_000, 31_000, 61_000].get(ctx.worker as usize).copied() } else if ctx.worker == 0 { Some(6500) } else { None };
+    if let Some(ms) = long {
+        for workers in if ctx.tier == Tier::Thorough { vec![4u8, 2] } else { vec![4u8] } {
+            let h = History { workers, ops: vec![Op::Valid(0), Op::Valid(3), Op::Quiet(ms), Op::Valid(1)] };
+            ctx.inflight_ser(&h);
+            let v = run_history(ctx, &root, &h);
+            let hh = h.clone();
+            ctx.count(&v, crate::fw::hash64(&format!("{:?}", h)), || serde_json::to_value(&hh).unwrap());
+        }
+        ctx.clear_inflight();
+    }
     let fs = (any::<u8>(), any::<bool>(), prop_oneof![3 => (0usize..800).prop_map(WriteScript::ErrAfter), 1 => Just(WriteScript::Zero), 1 => Just(WriteScript::Unlimited), 1 => (1usize..50).prop_map(WriteScript::Chunk)], proptest::bool::weighted(0.3), proptest::bool::weighted(0.2))
         .prop_map(|(request, faulty, script, flush_err, read_err)| FaultCase { request, faulty, script, flush_err, read_err });
     ctx.prop("transport-faults", ctx.share(ctx.scale(8_000, 400_000)), fs, |c| eval_fault(ctx, c));
